@@ -169,6 +169,28 @@ where
     Ok(())
 }
 
+/// `x.clone_from(&it)` must make `x` continue exactly like `it`, whatever `x`
+/// was before (here: an iterator over another digraph).
+pub fn clone_from_consistency<T, I>(what: &str, make: impl Fn() -> I, make_other: impl Fn() -> I, len: usize) -> Verdict
+where
+    T: PartialEq + Debug,
+    I: Iterator<Item = T> + Clone,
+{
+    for k in [0, 1, len / 2] {
+        let mut it = make();
+        for _ in 0..k {
+            let _ = it.next();
+        }
+        let mut x = make_other();
+        let _ = x.next();
+        x.clone_from(&it);
+        let a: Vec<T> = it.collect();
+        let b: Vec<T> = x.collect();
+        ensure!(a == b, "{what}: after x.clone_from(&it) (it advanced {k} steps) x continues with {b:?}, it with {a:?}");
+    }
+    Ok(())
+}
+
 pub fn check_queries<D: Queries>(g: &D, name: &str, m: &UModel, walks: &[Vec<usize>]) -> Verdict {
     let before = g.clone();
     let vs = m.vertices();
